@@ -1005,5 +1005,7 @@ func main() {
 	c.Assume("the KES verifier injected is ledger.VerifyKesComponents; its period convention (evolution = slot/slotsPerKESPeriod - payload KES period, VerifyMessage without slot => evolution 0) is taken as given, the statement only says 'the KES signature over the payload verifies'")
 	c.Assume("the cold signature is checked over the CBOR array [hot key, counter, period] (the form this authenticator defines); Cardano-format opcerts are reported as an observation, see coverage.observation_cardano_format_opcert")
 	c.Assume("key material and message bodies are representatives (VERIF_SEED rotates them)")
+	// free-running -race pass: concurrent callers on their own inputs (state the library shares between calls)
+	c.RaceAudit("c46")
 	c.Finish()
 }
